@@ -121,6 +121,36 @@ func verifCertField(idx, sweep int, name string, min, max int, class string, spl
 	return verifrt.F(name, min, max, class)
 }
 
+// VerifC06AcceptedKeyTrailing: an accepted public key followed by text that is not a certificate
+// description (the code's "extra padding" branch): still one succeeded event for the key.
+func VerifC06AcceptedKeyTrailing() {
+	U, A, K, J := verifrt.Param("U", 6), verifrt.Param("A", 6), verifrt.Param("K", 6), verifrt.Param("J", 8)
+	t := verifrt.Template("Accepted publickey for ", verifrt.F("user", 1, U, verifClassAccount),
+		" from ", verifrt.F("addr", 1, A, verifClassHost), " port ", verifrt.F("port", 1, 5, verifClassDigit),
+		" ssh2: ", verifrt.F("keytype", 1, 8, verifClassKeyType), " ", verifrt.F("hash", 1, 6, verifClassHash), ":", verifrt.F("fp", 1, K, verifClassFP),
+		" ", verifrt.F("trailing", 1, J, `[a-z ,]`))
+	r := verifProcess("acceptedkeytrailing", t.Line)
+	e := r.one(auditevent.OutcomeSucceeded)
+	if e == nil {
+		return
+	}
+	f := "c06.acceptedkeytrailing"
+	verifrt.AssertEqStr(f+".account", e.Subjects["loggedAs"], t.Fields[0])
+	verifrt.AssertEqStr(f+".addr", e.Source.Value, t.Fields[1])
+	verifrt.AssertEqStr(f+".port", verifExtra(e.Source.Extra, "port"), t.Fields[2])
+	verifrt.Assert(f+".userid", e.Subjects["userID"] == common.UnknownUser)
+	alg, _ := verifrt.JSONField(e.Data, "Alg")
+	sum, _ := verifrt.JSONField(e.Data, "SSHKeySum")
+	verifrt.AssertEqStr(f+".algorithm", alg, t.Fields[3]+" "+t.Fields[4])
+	verifrt.AssertEqStr(f+".fingerprint", sum, t.Fields[5])
+	// a public-key login: counted once, under a key or certificate method
+	counts := verifrt.LoginCounts(r.env.reg)
+	verifrt.Assert("c19.acceptedkeytrailing.one-increment", len(counts) == 1)
+	if len(counts) == 1 {
+		verifrt.Assert("c19.acceptedkeytrailing.label", verifrt.Or(counts[0] == "ssh-cert/success=1", counts[0] == "ssh-key/success=1"))
+	}
+}
+
 func VerifC06AcceptedCert() {
 	U, A, K, I := verifrt.Param("U", 8), verifrt.Param("A", 8), verifrt.Param("K", 8), verifrt.Param("I", 16)
 	P, T, SN := verifrt.Param("PORT", 5), verifrt.Param("T", 8), verifrt.Param("SERIAL", 20)
